@@ -422,6 +422,18 @@ theorem decCount_length {cw : Nat} {bs r : Bytes} {n : Nat} (h : decCount cw bs 
     have := readLE_length h
     exact ⟨cw, this, by simp [h0]⟩
 
+theorem bufCost_le (n : Nat) : bufCost n ≤ 18 * n := by
+  unfold bufCost
+  split
+  · omega
+  · have : n / 4 ≤ n := Nat.div_le_self n 4
+    omega
+
+theorem bufCost_mono {n m : Nat} (h : n ≤ m) : bufCost n ≤ bufCost m := by
+  unfold bufCost
+  have : n / 4 ≤ m / 4 := Nat.div_le_div_right h
+  split <;> split <;> omega
+
 theorem mul_step {a ovh De D c : Nat} (ha : a ≤ De * c) (hc : 1 ≤ c) (hD : ovh + De ≤ D) :
     a + ovh ≤ D * c := by
   have h1 : ovh ≤ ovh * c := Nat.le_mul_of_pos_right ovh hc
@@ -429,7 +441,7 @@ theorem mul_step {a ovh De D c : Nat} (ha : a ≤ De * c) (hc : 1 ≤ c) (hD : o
   rw [Nat.add_mul] at h2
   omega
 
-theorem repeatDec_good (f : Bytes → R Val) (ovh De me Se D : Nat) (hme : 1 ≤ me)
+theorem repeatDec_good {α : Type} (f : Bytes → R α) (ovh De me Se D : Nat) (hme : 1 ≤ me)
     (hD : ovh + De ≤ D) (hf : ∀ bs, Good De me Se bs (f bs)) :
     ∀ (n : Nat) (bs : Bytes), Good D n Se bs (repeatDec f ovh n bs) := by
   intro n
@@ -512,9 +524,13 @@ mutual
             obtain ⟨_, rfl⟩ := hr
             refine ⟨bs.length - r'.length, by omega, by omega, ?_⟩
             simp only [R.ok]
-            have : n ≤ bs.length - r'.length := by omega
-            exact Nat.le_trans this (Nat.le_mul_of_pos_left _ hD)
+            have h1 : bufCost n ≤ 18 * n := bufCost_le n
+            have h2 : 18 * n ≤ 18 * (bs.length - r'.length) := Nat.mul_le_mul_left _ (by omega)
+            have h3 : 18 * (bs.length - r'.length) ≤ D * (bs.length - r'.length) :=
+              Nat.mul_le_mul_right _ hD
+            omega
           · refine ⟨fun v rest hr => by simp [R.fail] at hr, fun _ => ?_⟩
+            have := bufCost_mono (Nat.le_of_not_lt hmax)
             simp only [R.fail]; omega
     | .pad1, D, bs, _, _ => by
       simp only [decodeA, minSize, slack]
